@@ -168,6 +168,72 @@ pub fn run(rep: &mut Rep) {
             super::add_counters(rep, &w);
         }
     }
+    // "immediately" has no exceptions in the long run either: more operations started after the drop than there are packet
+    // identifiers, from two clones, every one polled once
+    {
+        use crate::sim::{Cmd, Sim};
+        use crate::spec::{ConnSpec, ErrSum, OpSpec, PubSpec, SubSpec, UnsubSpec};
+        let n = if rep.quick() { 90_000usize } else { 300_000 };
+        rep.note(&format!("long run after the drop: {n} operations (QoS 1 / QoS 2 publish, subscribe, unsubscribe and alternately ping / QoS 0 publish in rotation - more identifier-carrying ones than there are identifiers -, two handle clones) each started after drop(context) and polled once: every one reports ContextExited on that poll"));
+        for variant in 0..2u64 {
+            let id = format!("long-after-drop:{variant}");
+            if !rep.take(48_000_000 + variant, &id) {
+                continue;
+            }
+            let mut sim = Sim::new(rep.seed);
+            sim.log_enabled = false;
+            sim.cmd(Cmd::Connect(ConnSpec::default()));
+            sim.settle();
+            sim.feed_packet(&crate::refcodec::SPacket::Connack { session_present: false, reason: 0, props: vec![] });
+            sim.settle();
+            sim.cmd(Cmd::Run);
+            sim.settle();
+            sim.clone_handle(0);
+            if variant == 1 {
+                // the counter starts near its wrap
+                sim.handles[0].as_ref().unwrap().verif_seed_ids(65_500, 1);
+            }
+            sim.start_op(0, OpSpec::Publish(PubSpec::simple(1, "before", b"x")));
+            sim.settle();
+            sim.drop_ctx();
+            sim.settle();
+            sim.ops.clear();
+            let mut bad: Option<String> = None;
+            let mut done = 0usize;
+            for j in 0..n {
+                // (four in five carry a packet identifier: more than 65 535 of those in every run)
+                let spec = match j % 5 {
+                    0 => OpSpec::Publish(PubSpec::simple(1, "t", b"a")),
+                    1 => OpSpec::Subscribe(SubSpec::simple("f")),
+                    2 => OpSpec::Publish(PubSpec::simple(2, "t", b"b")),
+                    3 => OpSpec::Unsubscribe(UnsubSpec::simple("f")),
+                    _ if j % 10 == 4 => OpSpec::Ping,
+                    _ => OpSpec::Publish(PubSpec::simple(0, "t", b"c")),
+                };
+                let op = sim.start_op(j % 2, spec);
+                let ok = matches!(sim.ops[op].out.as_ref().and_then(|o| o.err()), Some(ErrSum::ContextExited));
+                if !ok {
+                    bad = Some(format!("operation {} started after drop(context): first poll gave {:?}", j + 1, sim.ops[op].out.as_ref().map(|o| o.brief())));
+                    break;
+                }
+                done += 1;
+                if j % 1024 == 1023 {
+                    sim.ops.clear();
+                }
+            }
+            rep.add("evaluations", 1);
+            rep.add("operations_started_after_the_drop_in_long_runs", done as i64);
+            rep.add("context_exited_results_seen", done as i64);
+            rep.distinct(&("long-after-drop", variant));
+            for p in sim.panics.clone() {
+                rep.violation(&format!("C14/panic/{p}"), &id, &format!("panic: {p}"));
+            }
+            match bad {
+                Some(b) => rep.violation("C14/op-after-drop-not-context-exited/long-run", &id, &b),
+                None => rep.sample(|| format!("{id}: {done} operations after the drop, each ContextExited on its first poll")),
+            }
+        }
+    }
     // requests queued behind whatever ended run() (the user's DISCONNECT from another clone, a server DISCONNECT, EOF):
     // they were never looked at; when the context is dropped they fail with ContextExited like everything else
     rep.note("queued behind the end of run(): with the context held, a terminating cause (user DISCONNECT / server DISCONNECT reason 0 / reason 0x8b / EOF) is followed by one operation of every kind from two clones; run() ends, the context is dropped: every one of them reports ContextExited, none hangs");
